@@ -4,6 +4,7 @@
 EXTENDS TraceBase
 VARIABLE k
 L == INSTANCE HeaderLine
+A == INSTANCE HeaderLineAlgo
 TInit == tid \in 1..NT /\ l = 1 /\ k = 0
 Obs == [name |-> Ev.obs[1], unit |-> Ev.obs[2], value |-> Ev.obs[3], descr |-> Ev.obs[4]]
 Exp == [name |-> L!Strip(Ev.f[1]), unit |-> Ev.f[2], value |-> L!Strip(Ev.f[3]), descr |-> L!Strip(Ev.f[4])]
@@ -13,6 +14,7 @@ TLine == /\ Ev.op = "line" /\ k' = k + 1
          /\ Ev.exc = "" =>
               /\ Chk("C04.Parse", L!KnownD26(Ev.line, Ev.sec) \/ Obs = L!Parse(Ev.line, Ev.sec))
               /\ Chk("C04.Parse.known-D26", ~L!KnownD26(Ev.line, Ev.sec) \/ Obs = L!Parse(Ev.line, Ev.sec))
+              /\ Chk("Drift.HeaderLineAlgo", Obs = A!AlgoParse(Ev.line, Ev.sec))       \* algorithm layer vs implementation
 TNext == HasNext /\ Advance /\ TLine
 TSpec == TInit /\ [][TNext]_<<tid, l, k>>
 =============================================================================
